@@ -21,13 +21,13 @@ def pair : Comb := cons "pair" 10 "Pair" [⟨"X", false⟩, ⟨"Y", false⟩] [f
 def foo : Comb := cons "foo" 1 "Foo" [] [fld "x" (ref "int")]
 def foo2 : Comb := cons "foo2" 2 "Foo" [] []
 
-/-- L5: `bar p:(pair int %Foo)`; Foo becomes a union. -/
+/-- L5: `bar p:(pair int %Foo)`; Foo becomes a union and the field becomes `(pair int Foo)`. -/
 def l5Old : Schema := prelude ++ [pair, foo, cons "bar" 3 "Bar" [] [fld "p" (.mk "pair" false (.ty (ref "int") (.ty (bref "Foo") .nil)))]]
-def l5New : Schema := prelude ++ [pair, foo, foo2, cons "bar" 3 "Bar" [] [fld "p" (.mk "pair" false (.ty (ref "int") (.ty (bref "Foo") .nil)))]]
+def l5New : Schema := prelude ++ [pair, foo, foo2, cons "bar" 3 "Bar" [] [fld "p" (.mk "pair" false (.ty (ref "int") (.ty (ref "Foo") .nil)))]]
 
-/-- L5 inside a repeat: `bar n:# p:n*[%Foo]`. -/
+/-- L5 inside a repeat: `bar n:# p:n*[%Foo]` becomes `n*[Foo]`. -/
 def l5rOld : Schema := prelude ++ [foo, cons "bar" 3 "Bar" [] [fld "n" (ref "#"), rfld "p" (.var "n") (bref "Foo")]]
-def l5rNew : Schema := prelude ++ [foo, foo2, cons "bar" 3 "Bar" [] [fld "n" (ref "#"), rfld "p" (.var "n") (bref "Foo")]]
+def l5rNew : Schema := prelude ++ [foo, foo2, cons "bar" 3 "Bar" [] [fld "n" (ref "#"), rfld "p" (.var "n") (ref "Foo")]]
 
 /-- L7: `bar p:%Foo` becomes `bar p:Foo`. -/
 def l7Old : Schema := prelude ++ [foo, cons "bar" 3 "Bar" [] [fld "p" (bref "Foo")]]
@@ -38,9 +38,10 @@ def repOld : Schema := prelude ++ [cons "foo" 1 "Foo" [] [fld "n" (ref "#"), fld
 def repElNew : Schema := prelude ++ [cons "foo" 1 "Foo" [] [fld "n" (ref "#"), fld "m" (ref "#"), rfld "xs" (.var "n") (ref "long")]]
 def repScNew : Schema := prelude ++ [cons "foo" 1 "Foo" [] [fld "n" (ref "#"), fld "m" (ref "#"), rfld "xs" (.var "m") (ref "int")]]
 
-/-- a reference loses a type argument: `p:(pair int int)` becomes `p:(pair int)`. -/
-def fewOld : Schema := prelude ++ [pair, cons "bar" 3 "Bar" [] [fld "p" (.mk "pair" false (.ty (ref "int") (.ty (ref "int") .nil)))]]
-def fewNew : Schema := prelude ++ [pair, cons "bar" 3 "Bar" [] [fld "p" (.mk "pair" false (.ty (ref "int") .nil))]]
+/-- a type declared after its user loses a template argument: `p:(pair int int)` becomes `p:(pair int)`. -/
+def fewOld : Schema := prelude ++ [cons "bar" 3 "Bar" [] [fld "p" (.mk "pair" false (.ty (ref "int") (.ty (ref "int") .nil)))], pair]
+def fewNew : Schema := prelude ++ [cons "bar" 3 "Bar" [] [fld "p" (.mk "pair" false (.ty (ref "int") .nil))],
+  cons "pair" 10 "Pair" [⟨"X", false⟩] [fld "a" (ref "X")]]
 
 /-- tag changed. -/
 def tagOld : Schema := prelude ++ [foo, cons "bar" 3 "Bar" [] [fld "p" (ref "Foo")]]
